@@ -131,6 +131,14 @@ def stream(draw, max_len=40):
         di = defs[src % len(defs)]
         aimed = {"spec": draw(set_for(items[di]["spec"])), "choices": draw(st.none() | gen.choices)}
         items.insert(min(len(items), di + 1 + gap), aimed)
+    # time stamps are the sender's business: a server may repeat them (one-second resolution), its clock may step back, it
+    # may stamp data with the time it was taken; the mirror follows the ORDER of the messages
+    if draw(st.booleans()):
+        pool = ["2026-10-02T12:00:01", "2026-10-02T12:00:01", "2026-10-02T12:00:00.500000", "2026-10-02T11:59:59", "2026-10-02T12:00:02.25"]
+        for it in items:
+            k = it["spec"]["kind"]
+            if (k.startswith("def") or k.startswith("set")) and k.endswith("Vector") and draw(st.integers(0, 3)):
+                it["spec"]["attrs"]["timestamp"] = draw(st.sampled_from(pool))
     return items
 
 
